@@ -95,7 +95,11 @@ ParseIntOK(txt, ty, out) ==
       v == Mk(signed /\ t[1] = 45, DigitsVal(ds).mag)
       spaces == t # txt         \* surrounding whitespace: accepting or rejecting it is unspecified
   IN IF ~wellformed THEN out.k = "err"
-     ELSE IF InRange(ty, v) THEN (out.k = "val" /\ out.v = v) \/ (spaces /\ out.k = "err") ELSE out.k = "err"
+     ELSE IF InRange(ty, v)
+          THEN (out.k = "val" /\ out.v = v)
+               \/ (spaces /\ out.k = "err")
+               \/ (signed /\ t[1] = 45 /\ IsZero(v) /\ ~ty.s /\ out.k = "err")     \* "-0" for an unsigned type: unspecified
+          ELSE out.k = "err"
 
 (* --------------------------------- dates --------------------------------- *)
 (* proleptic Gregorian civil date -> days since 1970-01-01 (native integers suffice) *)
